@@ -38,10 +38,9 @@ func elems(b []byte) ([][]byte, []bool, string) {
 	return out, null, ""
 }
 
+// countedUint decodes a counted (little-endian, variable-length) unsigned integer with the
+// decoder's own semantics for over-long bodies (high bytes shift out).
 func countedUint(b []byte) (uint64, bool) {
-	if len(b) > 8 {
-		return 0, false
-	}
 	var u uint64
 	for i := len(b) - 1; i >= 0; i-- {
 		u = u<<8 | uint64(b[i])
@@ -150,9 +149,7 @@ func structCheck(typ zed.Type, body []byte, depth int) string {
 		if len(es) != 2 {
 			return fmt.Sprintf("union-arity: union value with %d elements", len(es))
 		}
-		if nulls[0] {
-			return "union-selector: union selector is null"
-		}
+		// a null selector is read as 0 by every decoder (DecodeInt(nil) == 0): not flagged
 		u, ok := countedUint(es[0])
 		if !ok || u&1 != 0 || int(u>>1) >= len(t.Types) {
 			return "union-selector: union selector out of range"
